@@ -115,10 +115,21 @@ func (h *verifC37H) reset(limit, maxlen int) error {
 				return MapChannelOptions{Mode: MapModeEphemeral, KeyTTL: 60 * time.Second, MinPageSize: 1}
 			},
 		},
+		SharedPoll: SharedPollConfig{
+			GetSharedPollChannelOptions: func(channel string) (SharedPollChannelOptions, bool) {
+				if !strings.HasPrefix(channel, "poll:") {
+					return SharedPollChannelOptions{}, false
+				}
+				return SharedPollChannelOptions{RefreshInterval: time.Hour, RefreshBatchSize: 10, MaxKeysPerConnection: 10}, true
+			},
+		},
 	})
 	if err != nil {
 		return err
 	}
+	node.OnSharedPoll(func(ctx context.Context, event SharedPollEvent) (SharedPollResult, error) {
+		return SharedPollResult{}, nil
+	})
 	broker, err := NewMemoryMapBroker(node, MemoryMapBrokerConfig{})
 	if err != nil {
 		return err
@@ -134,6 +145,10 @@ func (h *verifC37H) reset(limit, maxlen int) error {
 			rep := SubscribeReply{}
 			if h.nextKind == "m" || h.nextKind == "p" {
 				rep.Options.Type = SubscriptionTypeMap
+			}
+			if h.nextKind == "s" {
+				rep.Options.ExpireAt = time.Now().Unix() + 3600
+				rep.ClientSideRefresh = true
 			}
 			if h.nextAsync {
 				p := &verifC37Pending{ok: h.nextOK, kind: h.nextKind, rw: h.nextRW}
@@ -408,6 +423,11 @@ func (h *verifC37H) step(ws []string) (res string) {
 			req.Phase = MapPhaseState
 			req.Limit = 100
 		}
+		if kind == "s" {
+			// shared-poll subscribe (its own reservation path: handleSharedPollSubscribe)
+			req.Channel = "poll:" + strconv.Itoa(ch)
+			req.Type = int32(SubscriptionTypeSharedPoll)
+		}
 		if kind == "p" {
 			// paged map subscribe: the channel holds two keys and the page size is one, so after the
 			// first state page the subscription is still loading (entry in c.mapSubscribing)
@@ -500,6 +520,9 @@ func (h *verifC37H) step(ws []string) (res string) {
 		c.mu.RUnlock()
 		if name == "" {
 			name = "c" + strconv.Itoa(ch)
+		}
+		if ch >= 200 {
+			name = "poll:" + strconv.Itoa(ch)
 		}
 		rw := testReplyWriterWrapper()
 		err := c.handleUnsubscribe(&protocol.UnsubscribeRequest{Channel: name}, &protocol.Command{Id: 2}, time.Now(), rw.rw)
